@@ -15,34 +15,42 @@ structure M where
 
 def initM (ws : List String) : M := { s := init, u := (kvNat? ws "u").getD 0 }
 
-def parseOp (ws : List String) : Option Op :=
+/-- an op of the library, or the quick tier's state injection `binder preload n=<k>`: the state
+`bind_tokens` leaves after binding tokens 0..k-1 in order to an empty binder -/
+inductive Cmd where
+  | op (o : Op)
+  | preload (n : Nat)
+
+def parseCmd (ws : List String) : Option Cmd :=
   match ws with
   | "binder" :: kind :: rest =>
     match kind with
-    | "bind" => some (.bind (kvN rest "t"))
-    | "bind_many" => some (.bindMany (rangeOrList (kvS rest "ts")))
-    | "unbind" => some (.unbind (kvN rest "t"))
+    | "bind" => some (.op (.bind (kvN rest "t")))
+    | "bind_many" => some (.op (.bindMany (rangeOrList (kvS rest "ts"))))
+    | "unbind" => some (.op (.unbind (kvN rest "t")))
+    | "preload" => some (.preload (kvN rest "n"))
     | _ => none
   | _ => none
 
 def dedupKeep (l : List Nat) : List Nat := l.foldl (fun acc x => if acc.contains x then acc else acc ++ [x]) []
 
-def opTokens : Op → List Nat
-  | .bind t => [t]
-  | .unbind t => [t]
-  | .bindMany ts => match ts.head?, ts.getLast? with
+def opTokens : Cmd → List Nat
+  | .op (.bind t) => [t]
+  | .op (.unbind t) => [t]
+  | .op (.bindMany ts) => (match ts.head?, ts.getLast? with
     | some a, some b => [a, b]
-    | _, _ => []
+    | _, _ => [])
+  | .preload _ => []
 
 /-- probe tokens and probe indices, a function of the op and of the observed length only -/
-def probes (u : Nat) (op : Op) (n : Nat) : List Nat × List Nat :=
+def probes (u : Nat) (op : Cmd) (n : Nat) : List Nat × List Nat :=
   if u > 0 then (List.range u, List.range (u + 1))
   else (dedupKeep (opTokens op ++ [0, 1, 99, 100, 101, 199, 200, 201, 9999, 10000]),
         dedupKeep [0, 1, 98, 99, 100, 101, 198, 199, 200, 201, n - 2, n - 1, n])
 
 def showList (l : List Nat) : String := if l.length ≤ 16 then nats l else s!"#{digest l}"
 
-def showState (m : M) (op : Op) : String :=
+def showState (m : M) (op : Cmd) : String :=
   let s := m.s
   let l := linkedTokens s
   let (pt, pi) := probes m.u op l.length
@@ -52,12 +60,15 @@ def showState (m : M) (op : Op) : String :=
   s!"n={l.length} cnt={linkedTokenCount s} list={showList l} sum={sum1 l} sq={sumSq l} b={sepBy "," b} ix={sepBy "," ix} at={sepBy "," atL}"
 
 def stepLine (m : M) (line : String) : M × String :=
-  match parseOp (words line) with
+  match parseCmd (words line) with
   | none => (m, "bad-op")
-  | some op =>
+  | some (.preload n) =>
+    let m' := { m with s := (List.range n).foldl push init }
+    (m', "ok " ++ showState m' (.preload n))
+  | some (.op op) =>
     match step m.s op with
-    | .ok s' => let m' := { m with s := s' }; (m', "ok " ++ showState m' op)
-    | .error _ => (m, "err " ++ showState m op)
+    | .ok s' => let m' := { m with s := s' }; (m', "ok " ++ showState m' (.op op))
+    | .error _ => (m, "err " ++ showState m (.op op))
 
 /-! ### monitor: the plain set of bound tokens -/
 
@@ -90,9 +101,10 @@ def plain (g : Mon) (op : Op) : Except String Mon :=
 def check (g : Mon) (opl obs : String) : Mon × Option String :=
   let ws := words obs
   let ok := ws.head? == some "ok"
-  match parseOp (words opl) with
+  match parseCmd (words opl) with
   | none => (g, some s!"site=binder.parse bad op {opl}")
-  | some op =>
+  | some (.preload n) => ({ g with set := List.range n }, none)
+  | some (.op op) =>
     let (g2, accept) : Mon × Option String :=
       match plain g op, ok with
       | .ok g', true => (g', none)
